@@ -2,6 +2,7 @@ import Mutagen.Model.Staging
 import Mutagen.Proofs.Staging
 import Mutagen.Proofs.StagingSeq
 import Mutagen.Proofs.StagingCount
+import Mutagen.Proofs.StagingDistinct
 /-!
 # C41 — staging requests only what is missing and enforces limits
 
@@ -197,6 +198,30 @@ theorem transition_applied_within_limit {s s' : St} {ts : List Change} {rs : Lis
   rw [← hroot] at hcnt
   unfold rootCount at *
   constructor <;> omega
+
+/-- **The same with distinct names as the only structural hypothesis.** If the
+names within every directory of the root are distinct (`DistinctNames`, an
+invariant of `insertAt` / `removeAt` / `updateC`: `dn_insertAt`, `dn_removeAt`,
+`dn_update`, `dn_applyChange`) and the new entries of the plan have distinct
+names too (in the code entries are maps, so this cannot fail), then `PathFree`
+holds at every step (`subtree_removeAt_none`), and a plan whose transitions all
+yield their new entries (`AppliedRes`) leaves exactly the planned entry count,
+which is at most the maximum. -/
+theorem transition_applied_within_limit_distinct {s s' : St} {ts : List Change} {rs : List (Option Tree)} {m : Bool}
+    (h : transition s ts = (s', .ok rs m)) (hmax : s.max ≠ 0) (hscan : s.last = rootCount s.root)
+    (hb : s.last + totalNew ts < two64)
+    (hdn : DistinctNames s.root) (hnew : NewDistinct ts)
+    (happ : AppliedRes (if s.storeInit then some s.store else none) s.root ts) :
+    rootCount s'.root + totalOld ts = s.last + totalNew ts ∧ rootCount s'.root ≤ s.max :=
+  transition_applied_within_limit h hmax hscan hb (applied_of_distinct _ _ _ hdn hnew happ)
+
+/-- The transition also keeps the names distinct, so the hypothesis is there
+again for the next cycle. -/
+theorem transition_keeps_distinct_names {s s' : St} {ts : List Change} {rs : List (Option Tree)} {m : Bool}
+    (h : transition s ts = (s', .ok rs m)) (hdn : DistinctNames s.root) (hnew : NewDistinct ts) :
+    DistinctNames s'.root := by
+  rw [transition_ok_root h]
+  exact dn_applyAll _ _ _ hdn hnew
 
 /-- Pure deletions and pure creations need no side condition: `PathFree` only
 constrains transitions that replace an existing entry by a new one. -/
